@@ -24,11 +24,11 @@ EXPLANATION = (
     "esi, edi) and odd halves (five stack slots) interleave to ref_round of the previous cut. The three RISC-V ASSEMBLY "
     "permutations (RV64I; RV32I and RV32E in the bit-sliced layout, RV32E keeping the odd halves in the state memory) and "
     "the AArch64 ASSEMBLY permutation (tools/lift_arm64.py; the upper bits of the argument register are arbitrary, as AAPCS64 "
-    "allows) and the ARMv6 / ARMv7-M / ARMv6-M ASSEMBLY permutations (tools/lift_arm32.py; bit-sliced halves in low / high registers) and the Xtensa permutation (tools/lift_xtensa.py) are lifted and "
+    "allows) and the ARMv6 / ARMv7-M / ARMv6-M ASSEMBLY permutations (tools/lift_arm32.py; bit-sliced halves in low / high registers) and the Xtensa and m68k permutations (tools/lift_xtensa.py, tools/lift_m68k.py) are lifted and "
     "proved the same way."
 )
 ASSUMPTIONS = [
-    "x86-64 assembly: verified through tools/lift_x86_64.py (trusted: its instruction table for movq/xorq/andq/notq/rorq/pushq/popq/cmpq+jge/jmp/ret and the leaq-movslq-addq-jmp* jump-table idiom; System V argument registers, first_round arriving zero-extended in rsi; gas assembling the text it is given; only the Linux/ELF preprocessor variant of prologue/epilogue). i386 assembly: through tools/lift_i386.py (trusted: its table for movl/xorl/andl/notl/rorl/pushl/popl/cmpl+je/jmp/ret, static %esp tracking, cdecl). RISC-V assembly: through tools/lift_riscv.py (trusted: its table for ld/lw/sd/sw/not/li/xor/or/and/xori/slli/srli/addi sp/beq/j/ret, static sp tracking, the psABI). AArch64: tools/lift_arm64.py (ldr/ldp/str/stp/mov/mvn/eor/bic with ror-shifted operand/ror/cmp+beq/b/ret, AAPCS64). ARMv6 / ARMv7-M / ARMv6-M: tools/lift_arm32.py (push/pop/ldr/str incl. sp-relative/mov/mvn/eor/and/bic with ror-shifted operand/rors by register/lsls/cmp+beq,bhi/b/bl as far branch/the adr-ldr-add-mov pc jump-table idiom, flag-setting forms as plain forms, AAPCS32). Xtensa (call0 ABI variant): tools/lift_xtensa.py (l32i/s32i/movi/mov/xor/and/ssai+src funnel shift/beqi/beqz/beq/j/ret). The other two assembly backends (AVR5, m68k) are not covered",
+    "x86-64 assembly: verified through tools/lift_x86_64.py (trusted: its instruction table for movq/xorq/andq/notq/rorq/pushq/popq/cmpq+jge/jmp/ret and the leaq-movslq-addq-jmp* jump-table idiom; System V argument registers, first_round arriving zero-extended in rsi; gas assembling the text it is given; only the Linux/ELF preprocessor variant of prologue/epilogue). i386 assembly: through tools/lift_i386.py (trusted: its table for movl/xorl/andl/notl/rorl/pushl/popl/cmpl+je/jmp/ret, static %esp tracking, cdecl). RISC-V assembly: through tools/lift_riscv.py (trusted: its table for ld/lw/sd/sw/not/li/xor/or/and/xori/slli/srli/addi sp/beq/j/ret, static sp tracking, the psABI). AArch64: tools/lift_arm64.py (ldr/ldp/str/stp/mov/mvn/eor/bic with ror-shifted operand/ror/cmp+beq/b/ret, AAPCS64). ARMv6 / ARMv7-M / ARMv6-M: tools/lift_arm32.py (push/pop/ldr/str incl. sp-relative/mov/mvn/eor/and/bic with ror-shifted operand/rors by register/lsls/cmp+beq,bhi/b/bl as far branch/the adr-ldr-add-mov pc jump-table idiom, flag-setting forms as plain forms, AAPCS32). Xtensa (call0 ABI variant): tools/lift_xtensa.py (l32i/s32i/movi/mov/xor/and/ssai+src funnel shift/beqi/beqz/beq/j/ret). m68k: tools/lift_m68k.py (link/unlk/rts, move.l/movea.l/moveq.l, not/eor/eori/and, ror by immediate or register, cmpi+jbeq, jmp; cdecl). The AVR5 assembly backend is not covered",
     "byte operations of the 32-bit bit-sliced backend: init, copy (and, thorough tier, add and overwrite) with symbolic offset/size; overwrite_with_zeroes and the extract family by ENUMERATION of constant (offset, size) pairs - all 861 pairs in the thorough tier, a seed-rotated sample of ~30 in the quick tier - because with symbolic offsets the extract family exhausts the solver and ascon_overwrite_with_zeroes hits the CBMC 6.11 union anomaly (state->S[i] = 0 followed by a read through W[] is reported non-zero for offset 12, size 19, although the same pair passes as constants and natively); add/overwrite of this backend are not in the quick tier",
     "start rounds above 12 are outside the contract (the 32-bit backend forms the pointer RC + 2*first_round, which is only defined up to 12)",
 ]
@@ -135,6 +135,16 @@ def xtensa_groups(props=("C08",), prefix="c08"):
                   note="cut points at the 13 round labels; ssai/src funnel shifts; sp tracked statically")]
 
 
+def m68k_groups(props=("C08",), prefix="c08"):
+    """m68k assembly permutation (bit-sliced 32-bit layout; data and address registers), lifted by tools/lift_m68k.py."""
+    sig = ["--fn=ascon_permute:void:ascon_state_t * state,uint8_t first_round"]
+    return [Group(prefix + ".permute.m68k_asm", props, "harness/h_permute_asm.c", "h_permute_asm", [], cfg="C32",
+                  enforce="ascon_permute", defs=["VERIF_ANY_FIRST_ROUND", 'VERIF_GHOST_HEADER="ghost_asm_m68k.h"'],
+                  contracts=["contracts/c_permute_enforce.h"], lift=("src/core/ascon-asm-m68k.S", sig), timeout=1800,
+                  functions=["ascon_permute (m68k assembly, lifted)"], expect_classes=["postcondition", "assigns", "assertion"],
+                  note="cut points at the 13 round labels; link/unlk frame; rotate by register modulo 64")]
+
+
 def byteop_groups(cfg, props=("C08",), alias=True):
     gs = []
     for f in BYTEOPS:
@@ -189,6 +199,7 @@ def groups(tier):
     gs += arm64_groups()
     gs += arm32_groups()
     gs += xtensa_groups()
+    gs += m68k_groups()
     for cfg in (["C64"] if tier == "quick" else ["C64", "DX", "DEF"]):
         gs += byteop_groups(cfg)
     if tier == "thorough":
